@@ -1,6 +1,153 @@
-(* C20 - error traces always render and show the real message and failing line (statements only; proofs in Proofs/TraceLemmas.v) *)
-From Clikit Require Import Base.Prelude Base.Res Model.Conv Model.Markup Model.OutputM Model.Trace Proofs.TraceLemmas.
+(* C20 - error traces always render and show the real message and failing line.
+   Statements only; the proofs are in Proofs/TraceLemmas.v (highlighter, numbering, frames, report shape) and
+   Proofs/LiteralLemmas.v (text put into markup by _literal is shown as it is, decorated or not, and never makes the
+   formatter fail).  tokenize / inspect / crashtest deliver the token streams and frames: they are inputs of the model;
+   the hypotheses on token streams (row_wf, rows_ok, phys_line) are checked on every stream of every run by the harness. *)
+From Coq Require Import Lia.
+From Clikit Require Import Base.Prelude Base.Res Model.Conv Model.Markup Model.OutputM Model.Trace
+  Proofs.MarkupLemmas Proofs.TraceLemmas Proofs.LiteralLemmas.
 
+(* ---- the code snippet numbers its lines consecutively and marks exactly the failing line ---- *)
 Theorem line_numbers_length : forall u lines mark, length (line_numbers u lines mark) = length lines.
 Proof. exact line_numbers_length_l. Qed.
 Print Assumptions line_numbers_length.
+(* line k (from 0) carries the number k+1, right-aligned to the common width, then the delimiter, a blank and the line *)
+Theorem line_numbers_consecutive : forall u lines mark k d, (k < length lines)%nat ->
+  nth k (line_numbers u lines mark) d = number_line u (number_width (length lines)) mark (Z.of_nat k + 1)%Z (nth k lines []).
+Proof. exact line_numbers_nth. Qed.
+Print Assumptions line_numbers_consecutive.
+Theorem marks_exactly_the_failing_line : forall u lines mark k d, (k < length lines)%nat ->
+  (marked u (nth k (line_numbers u lines mark) d) <-> mark = (Z.of_nat k + 1)%Z).
+Proof. exact marks_exactly_l. Qed.
+Print Assumptions marks_exactly_the_failing_line.
+(* the snippet is a window of consecutive numbered lines ... *)
+Theorem snippet_is_a_window : forall u toks line before after k d,
+  (0 <= before)%Z -> (0 <= after)%Z -> (Z.of_nat k < after + before + 1)%Z ->
+  let off := Z.to_nat (Z.max (line - before - 1) 0) in
+  (off + k < length (split_to_lines toks))%nat ->
+  nth k (code_snippet u toks line before after) d
+  = number_line u (number_width (length (split_to_lines toks))) line (Z.of_nat (off + k) + 1)%Z (nth (off + k) (split_to_lines toks) []).
+Proof. exact code_snippet_nth. Qed.
+Print Assumptions snippet_is_a_window.
+(* ... that contains the failing line whenever the source has it *)
+Theorem snippet_contains_failing_line : forall toks line before after,
+  (0 <= before)%Z -> (0 <= after)%Z -> (1 <= line)%Z -> (line <= Z.of_nat (length (split_to_lines toks)))%Z ->
+  exists k, (Z.of_nat k < after + before + 1)%Z /\
+    (Z.of_nat (Z.to_nat (Z.max (line - before - 1) 0) + k) + 1)%Z = line /\
+    (Z.to_nat (Z.max (line - before - 1) 0) + k < length (split_to_lines toks))%nat.
+Proof. exact code_snippet_has_line. Qed.
+Print Assumptions snippet_contains_failing_line.
+
+(* ---- every source line made of single-line tokens is shown verbatim, at its own number ---- *)
+(* pre: the tokens before row r (any rows, tokens spanning rows included); row: the tokens of row r, lying in order on
+   the physical line ln, each covering its own slice; nxt: the first token after them (a later row, or the end marker).
+   Then line r-1 of the highlighter's result exists and its text is ln up to trailing white space. *)
+Theorem row_shown : forall pre row nxt post ln r c0,
+  Forall not_end pre -> rows_ok 1 pre c0 -> (c0 < r \/ Forall (fun t => tk_srow t = 0) pre /\ r = 1)%Z -> (1 <= r)%Z ->
+  row <> [] -> row_wf ln r 0 row -> has_real row -> phys_line ln ->
+  tk_srow nxt <> 0%Z ->
+  (tk_kind nxt = TkEnd /\ Forall (fun c => is_space c = true) (skipn (Z.to_nat (row_end 0 row)) ln)
+   \/ tk_kind nxt <> TkEnd /\ (r < tk_srow nxt)%Z) ->
+  exists closed, nth_error (split_chunks (pre ++ row ++ nxt :: post)) (Z.to_nat (r - 1)) = Some closed /\ closes_as ln closed.
+Proof. exact row_shown_l. Qed.
+Print Assumptions row_shown.
+(* one line per row of the source *)
+Theorem one_line_per_row : forall pre e post c0,
+  Forall not_end pre -> rows_ok 1 pre c0 -> tk_kind e = TkEnd -> tk_srow e <> 0%Z ->
+  Z.of_nat (length (split_chunks (pre ++ e :: post))) = c0.
+Proof. exact split_chunks_length. Qed.
+Print Assumptions one_line_per_row.
+
+(* non-vacuity: the token stream of  "x = 1 + \<NL>  2<NL>"  (a backslash continuation) meets the hypotheses for row 1 *)
+Module Ex.
+  Definition ln1 : str := [120;32;61;32;49;32;43;32;92;10]%N.
+  Definition ln2 : str := [32;32;50;10]%N.
+  Definition tk k s sr sc er ec ln := {| tk_kind := k; tk_kw := false; tk_bi := false; tk_str := s; tk_srow := sr; tk_scol := sc;
+                                         tk_erow := er; tk_ecol := ec; tk_line := ln |}.
+  Definition enc := tk TkOther [117;116;102;45;56]%N 0 0 0 0 [].
+  Definition row1 := [tk TkOther [120%N] 1 0 1 1 ln1; tk TkOp [61%N] 1 2 1 3 ln1; tk TkNumber [49%N] 1 4 1 5 ln1; tk TkOp [43%N] 1 6 1 7 ln1].
+  Definition two := tk TkNumber [50%N] 2 2 2 3 ln2.
+  Definition rest := [tk TkNewline [10%N] 2 3 2 4 ln2; tk TkEnd [] 3 0 3 0 []].
+  Example row1_shown : exists closed, nth_error (split_chunks ([enc] ++ row1 ++ two :: rest)) 0 = Some closed /\ closes_as ln1 closed.
+  Proof.
+    apply (row_shown [enc] row1 two rest ln1 1 1).
+    - repeat constructor.
+    - reflexivity.
+    - right. split; [repeat constructor|reflexivity].
+    - lia.
+    - discriminate.
+    - cbn. repeat split; try lia; try reflexivity; try discriminate.
+    - exists (tk TkOp [61%N] 1 2 1 3 ln1). split; [right; left; reflexivity|discriminate].
+    - intros H. cbn in H. repeat (destruct H as [H|H]; [discriminate|]). exact H.
+    - discriminate.
+    - right. split; [discriminate|cbn; lia].
+  Qed.
+  (* and the line really shows the backslash *)
+  Example row1_text : option_map chunks_text (nth_error (split_chunks ([enc] ++ row1 ++ two :: rest)) 0) = Some [120;32;61;32;49;32;43;32;92]%N.
+  Proof. vm_compute. reflexivity. Qed.
+End Ex.
+
+(* ---- frames under an ignored path are left out unless the verbosity is debug ---- *)
+Theorem compact_keeps_frames : forall l f, In f (flat_map c_frames (compact l)) -> In f l.
+Proof. exact compact_sub_l. Qed.
+Print Assumptions compact_keeps_frames.
+Theorem listed_frames_are_kept : forall c fs f,
+  In f (trace_frames c fs) -> In f fs /\ (f_ignored f = false \/ t_debug c = true).
+Proof. exact listed_frames_kept. Qed.
+Print Assumptions listed_frames_are_kept.
+(* below debug verbosity the stack trace is exactly what it would be if the ignored frames did not exist *)
+Theorem ignored_frames_are_invisible : forall c ind fs,
+  t_debug c = false -> render_trace c ind fs = render_trace c ind (filter (fun f => negb (f_ignored f)) fs).
+Proof. exact ignored_frames_invisible. Qed.
+Print Assumptions ignored_frames_are_invisible.
+Theorem debug_keeps_every_frame : forall c fs, t_debug c = true -> kept_frames c fs = fs.
+Proof. exact debug_lists_all. Qed.
+Print Assumptions debug_keeps_every_frame.
+(* when the stack trace is printed every frame that compact kept has its location line in it *)
+Theorem stack_trace_lists_frames : forall c ind fs ls,
+  t_verbose c = true -> (zlen (kept_frames c fs) - 1 <> 0)%Z -> render_trace c ind fs = Ok ls ->
+  forall f, In f (trace_frames c fs) -> exists k w, In (loc_line c ind w f k) ls.
+Proof. exact render_trace_lists. Qed.
+Print Assumptions stack_trace_lists_frames.
+
+(* ---- the report contains the class name and the message; in simple mode just the message ---- *)
+Theorem full_report_shape : forall c ind x ls,
+  x_frames x <> [] -> render_exception c ind x = Ok ls ->
+  exists tr sn, render_trace c ind (x_frames x) = Ok tr /\
+    ls = tr ++ [(ind, []); (ind, name_line x); (ind, []); (ind, msg_line x)] ++ sn.
+Proof. exact render_exception_shape. Qed.
+Print Assumptions full_report_shape.
+Theorem simple_report_shape : forall c ind x,
+  render_lines c true ind x = Ok [(ind, s_error_open ++ literal (x_msg x) st_error ++ s_error_close)].
+Proof. exact render_simple_shape. Qed.
+Print Assumptions simple_report_shape.
+
+(* ---- text put into the markup is shown as it is, whatever it contains; rendering never fails ---- *)
+(* shown s = s, with a blank after a trailing backslash *)
+Theorem text_is_shown_as_it_is : forall sty sk tag p s, tag_name tag -> resolve sty (py_lower tag) = Ok (Some p) ->
+  colorize sty false sk (tagged tag (literal s tag)) = Ok (sk, shown s).
+Proof. exact literal_plain. Qed.
+Print Assumptions text_is_shown_as_it_is.
+Theorem named_text_is_shown_as_it_is : forall sty sk nm p s, tag_name nm -> resolve sty (py_lower nm) = Ok (Some p) ->
+  colorize sty false sk (open_tag nm ++ literal s nm ++ close_tag nm) = Ok (sk, shown s).
+Proof. exact literal_named_plain. Qed.
+Print Assumptions named_text_is_shown_as_it_is.
+(* a whole line of literals and plain separators, undecorated ... *)
+Theorem line_shows_its_texts : forall sty sk ps, pieces_ok sty ps ->
+  colorize sty false sk (line_str ps) = Ok (sk, flat_map piece_shown ps).
+Proof. exact line_plain. Qed.
+Print Assumptions line_shows_its_texts.
+(* ... and decorated: the same text under the escape codes, the style stack left as it was, no failure *)
+Theorem decorated_line_shows_the_same_text : forall sty sk ps, pieces_ok sty ps -> pieces_noesc ps ->
+  exists out, colorize sty true sk (line_str ps) = Ok (sk, out) /\ strip_sgr out = flat_map piece_shown ps.
+Proof. exact line_decorated. Qed.
+Print Assumptions decorated_line_shows_the_same_text.
+Theorem line_never_makes_the_formatter_fail : forall sty sk col ps, pieces_ok sty ps -> pieces_noesc ps ->
+  exists out, colorize sty col sk (line_str ps) = Ok (sk, out).
+Proof. exact line_never_raises. Qed.
+Print Assumptions line_never_makes_the_formatter_fail.
+(* highlighted source code: every chunk shows its text, in every style table *)
+Theorem highlighted_line_shows_the_source : forall sty sk cs,
+  colorize sty false sk (render_chunks cs) = Ok (sk, flat_map (fun c => shown (snd c)) cs).
+Proof. exact render_chunks_plain. Qed.
+Print Assumptions highlighted_line_shows_the_source.
